@@ -743,7 +743,14 @@ fn remove_common_factors(lhs: SymExpr, rhs: SymExpr) -> (SymExpr, SymExpr) {
     let mut i = 0;
     while i < lhs_terms.len() {
         let lhs_term = &lhs_terms[i];
-        let k = rhs_terms.iter().position(|t| lhs_term == t);
+        // Only factors that are known to be positive are removed. Removing a
+        // negative factor negates both sides, and `-i32::MIN` is not
+        // representable.
+        let k = if lhs_term.is_positive() {
+            rhs_terms.iter().position(|t| lhs_term == t)
+        } else {
+            None
+        };
         if let Some(k) = k {
             lhs_terms.remove(i);
             rhs_terms.remove(k);
